@@ -423,6 +423,35 @@ fn run_call(
                     res.push(json!(e.tuples));
                     aux.push(e.aux || e.unknown_support);
                     canon_ok.push(true);
+                    // the colour / vertex sanitisers on the projections of a raw result (C15)
+                    if call["san_proj"].as_bool().unwrap_or(false) {
+                        let proj = catch_unwind(AssertUnwindSafe(|| {
+                            use biodivine_hctl_model_checker::postprocessing::sanitizing::{sanitize_colors, sanitize_vertices};
+                            let canon_g = SymbolicAsyncGraph::new(&bn).unwrap();
+                            let cctx = canon_g.symbolic_context();
+                            let sc = sanitize_colors(&g, &s.colors());
+                            let sv = sanitize_vertices(&g, &s.vertices());
+                            let same_vars = sc.as_bdd().num_vars() == cctx.bdd_variable_set().num_vars()
+                                && sv.as_bdd().num_vars() == cctx.bdd_variable_set().num_vars();
+                            // colours: pairs with state 0 ; vertices: pairs with colour 0 (the other half is unconstrained)
+                            let n = bn.num_vars();
+                            let cols: Vec<u64> = explicit_of_bdd(sc.as_bdd(), cctx, &bn).tuples.iter().filter(|t| *t % (1u64 << n) == 0).map(|t| t >> n).collect();
+                            let verts: Vec<u64> = explicit_of_bdd(sv.as_bdd(), cctx, &bn).tuples.iter().filter(|t| *t >> n == 0).map(|t| t % (1u64 << n)).collect();
+                            (same_vars, cols, verts)
+                        }));
+                        match proj {
+                            Ok((ok, cols, verts)) => {
+                                out.insert("san_proj_ok".into(), json!(ok));
+                                out.insert("san_colors".into(), json!(cols));
+                                out.insert("san_vertices".into(), json!(verts));
+                            }
+                            Err(_) => {
+                                out.insert("san_proj_ok".into(), json!(false));
+                                out.insert("san_colors".into(), json!([]));
+                                out.insert("san_vertices".into(), json!([]));
+                            }
+                        }
+                    }
                 }
             }
             out.insert("res".into(), json!(res));
